@@ -57,16 +57,16 @@ Wrapped(t, sub) ==
 \* ---- the reduction specs ----------------------------------------------------------------
 Sp(form, init, op, levels, lazy) == [form |-> form, sub |-> "T", init |-> init, op |-> op, levels |-> levels, lazy |-> lazy]
 NumInits == {"int", "float", "half", "five"}
-AllInits == NumInits \cup {"list", "tuple", "str", "dict", "odict", "seeded"}
+AllInits == NumInits \cup {"list", "tuple", "str", "dict", "odict", "seeded", "strx", "tup0"}   \* empty and non-empty starts
 SpecsOf(form) ==
   CASE form = "Fold"    -> {Sp("Fold", i, o, 1, FALSE) : i \in AllInits, o \in {"iadd", "add", "right"}}
                            \cup {Sp("Fold", i, "digits", 1, FALSE) : i \in NumInits}
-    [] form = "Sum"     -> {Sp("Sum", i, "iadd", 1, FALSE) : i \in NumInits}
-    [] form = "Flatten" -> {Sp("Flatten", i, "iadd", 1, FALSE) : i \in {"list", "tuple", "int", "str", "seeded"}}
+    [] form = "Sum"     -> {Sp("Sum", i, "iadd", 1, FALSE) : i \in NumInits \cup {"strx"}}
+    [] form = "Flatten" -> {Sp("Flatten", i, "iadd", 1, FALSE) : i \in {"list", "tuple", "int", "str", "seeded", "strx", "tup0"}}
                            \cup {Sp("Flatten", "lazy", "iadd", 1, TRUE)}
     [] form = "Merge"   -> {Sp("Merge", "dict", "update", 1, FALSE), Sp("Merge", "odict", "update", 1, FALSE),
                             Sp("Merge", "dict", "keepfirst", 1, FALSE), Sp("Merge", "list", "extend", 1, FALSE)}
-    [] form = "flatten" -> {Sp("flatten", i, "iadd", n, FALSE) : i \in {"list", "tuple", "int"}, n \in Levels}
+    [] form = "flatten" -> {Sp("flatten", i, "iadd", n, FALSE) : i \in {"list", "tuple", "int", "tup0"}, n \in Levels}
                            \cup {Sp("flatten", "lazy", "iadd", n, TRUE) : n \in Levels \ {0}}
     [] form = "merge"   -> {Sp("merge", "dict", "update", 1, FALSE), Sp("merge", "odict", "update", 1, FALSE)}
 AllSpecs == UNION {SpecsOf(f) : f \in Forms}
